@@ -654,9 +654,20 @@ TMwixReq ==
      /\ MatchState(LastOr(r.steps, st), e, "MwixReq")
      /\ Step(HvBuilt(e))
 
+\* ---- view wallet: what the holder of the rewind hash is shown (conformance only) ---------
+TViewScan ==
+  /\ IsEv("view_scan")
+  /\ LET e == E
+         v == ViewScan(st, e.w, e.start)
+         obs == {[o |-> e.outs[i].o, v |-> e.outs[i].v, h |-> e.outs[i].h, cb |-> e.outs[i].cb, lk |-> e.outs[i].lk] : i \in DOMAIN e.outs} IN
+     /\ CheckMatch(Ok(e), e, "ViewScan:res")
+     /\ Ok(e) => CheckMatch(obs = v.outs /\ e.total = v.total /\ Len(e.outs) = Cardinality(v.outs), e, "ViewScan")
+     /\ CheckMatch(S2 = st, e, "ViewScan:changed-the-world")
+     /\ Step(hv)
+
 \* ---- anything else: observe only ------------------------------------------
 Known == {"reset", "init_send", "lock", "receive", "finalize", "cancel", "post", "mine", "node_up", "node_down",
-          "refresh", "create_account", "set_active", "build_coinbase", "issue_invoice", "process_invoice", "crash", "trunc", "fork", "restore", "diverge", "scan", "reopen", "build_output", "mwix_req"}
+          "refresh", "create_account", "set_active", "build_coinbase", "issue_invoice", "process_invoice", "crash", "trunc", "fork", "restore", "diverge", "scan", "reopen", "build_output", "mwix_req", "view_scan"}
 TOther == /\ l <= Len(Rec) /\ Rec[l].ev \notin Known /\ ~Skipped
           /\ Step(hv)
 TSkipped == /\ Skipped
@@ -666,7 +677,7 @@ TSkipped == /\ Skipped
 TInit == /\ l = 1 /\ st = [w |-> <<>>, chain |-> <<>>, pool |-> {}, body |-> <<>>, reg |-> <<>>, nrep |-> <<>>]
          /\ hv = EmptyHist({}) /\ aux = [nodeUp |-> TRUE, dirty |-> {}, pre |-> <<>>, hvpre |-> EmptyHist({}), ope |-> <<>>, fresh |-> {}, mustRevert |-> {}]
 TNext == \/ TReset \/ TInitSend \/ TLock \/ TReceive \/ TFinalize \/ TCancel \/ TPost \/ TMine \/ TNode
-         \/ TRefresh \/ TAccount \/ TBuildCoinbase \/ TIssueInvoice \/ TProcessInvoice \/ TCrash \/ TTrunc \/ TFork \/ TRestore \/ TDiverge \/ TScan \/ TReopen \/ TBuildOutput \/ TMwixReq \/ TOther \/ TSkipped
+         \/ TRefresh \/ TAccount \/ TBuildCoinbase \/ TIssueInvoice \/ TProcessInvoice \/ TCrash \/ TTrunc \/ TFork \/ TRestore \/ TDiverge \/ TScan \/ TReopen \/ TBuildOutput \/ TMwixReq \/ TViewScan \/ TOther \/ TSkipped
 TSpec == TInit /\ [][TNext]_tvars
 
 \* every line must have been consumed (the spec has no way to get stuck other
